@@ -45,7 +45,8 @@ ASSUMPTIONS = [
 ]
 RULE = (
     "random term sets (1-7 terms, each a subset of <= 4 categorical + <= 2 numeric variables, degree <= 4), random order, "
-    "intercept on/off at a random position, cluster_by both, outputs pandas/numpy/sparse; levels 1-4 per categorical with a "
+    "intercept on/off at a random position, cluster_by both, outputs pandas/numpy/sparse; levels 1-4 per categorical "
+    "(labels: strings, integers from 0 or 1, booleans, strings with '' first; pandas.Categorical or plain object column) with a "
     "random built-in contrast (treatment default, C(), treatment, SAS, sum, helmert, diff, poly); fully crossed data; "
     "thorough: + exhaustive term sets over 3 factors x all orders of <= 5 terms; non-trivial = some term of degree >= 2"
 )
@@ -62,25 +63,53 @@ def atom(v, contr):
     return f"C({v}, contr.{contr})"
 
 
+# level-label pools: the labels are data, the reference level of a factor is its FIRST level whatever it is called
+# (falsy labels - 0, False, "" - included)
+POOLS = {
+    "str": ["a", "b", "c", "d"],
+    "int0": [0, 1, 2, 3],
+    "int1": [1, 2, 3, 4],
+    "bool": [False, True],
+    "empty": ["", "x", "y", "z"],
+}
+
+
+def cat_levels(cat):
+    """cat = [name, k, contrast] or [name, k, contrast, pool, declared]"""
+    pool = POOLS[cat[3]] if len(cat) > 3 else POOL
+    return pool[: cat[1]]
+
+
 def crossed_frame(cats, nums):
-    axes = [POOL[:k] for _, k, _ in cats] + [list(p) for p in [(2, 3), (5, 7)][: len(nums)]]
+    axes = [cat_levels(c) for c in cats] + [list(p) for p in [(2, 3), (5, 7)][: len(nums)]]
     rows = list(itertools.product(*axes))
     cols = {}
-    for i, (v, k, _) in enumerate(cats):
-        cols[v] = pandas.Categorical([r[i] for r in rows], categories=POOL[:k])
+    for i, c in enumerate(cats):
+        vals = [r[i] for r in rows]
+        if len(c) > 4 and not c[4]:
+            cols[c[0]] = pandas.Series(vals, dtype=object)  # plain object column: levels = sorted unique values
+        else:
+            cols[c[0]] = pandas.Categorical(vals, categories=cat_levels(c))
     for j, v in enumerate(nums):
         cols[v] = numpy.array([float(r[len(cats) + j]) for r in rows])
     return pandas.DataFrame(cols), len(rows)
 
 
+def gen_cat(rng, v):
+    pool = rng.choice(["str", "str", "int0", "int0", "bool", "empty", "int1"])
+    k = min(rng.choice([1, 2, 2, 3, 3, 4]), len(POOLS[pool]))
+    return [v, k, rng.choice(CONTR), pool, rng.random() < 0.7]
+
+
 def gen_case(rng, small=False):
     ncat = rng.randint(1, 3 if small else 4)
     nnum = rng.randint(0, 2)
-    cats = [[v, rng.choice([1, 2, 2, 3, 3, 4]), rng.choice(CONTR)] for v in ["A", "B", "G", "H"][:ncat]]
-    while numpy.prod([k for _, k, _ in cats]) > 48:
-        cats[rng.randrange(ncat)][1] = 2
+    cats = [gen_cat(rng, v) for v in ["A", "B", "G", "H"][:ncat]]
+    while numpy.prod([c[1] for c in cats]) > 48:
+        c = cats[rng.randrange(ncat)]
+        c[1] = min(c[1], 2)
     nums = ["x", "y"][:nnum]
-    variables = [v for v, _, _ in cats] + nums
+    variables = [c[0] for c in cats] + nums
     nterms = rng.randint(1, 7)
     terms, seen = [], set()
     for _ in range(nterms):
@@ -114,12 +143,12 @@ def gen_case(rng, small=False):
 
 def exhaustive(rng, budget):
     configs = [
-        ([["A", 2, None], ["B", 3, "sum"]], ["x"]),
-        ([["A", 3, "helmert"], ["B", 2, None], ["G", 2, "treatment"]], []),
+        ([["A", 2, None, "int0", True], ["B", 3, "sum", "empty", True]], ["x"]),
+        ([["A", 3, "helmert"], ["B", 2, None, "bool", False], ["G", 2, "treatment", "int0", True]], []),
     ]
     out = []
     for cats, nums in configs:
-        variables = [v for v, _, _ in cats] + nums
+        variables = [c[0] for c in cats] + nums
         allterms = [list(s) for r in range(0, 4) for s in itertools.combinations(variables, r)]
         for k in range(1, len(allterms) + 1):
             for subset in itertools.combinations(allterms, k):
@@ -145,7 +174,7 @@ def cases(rng, tier):
 
 
 def formula_of(c):
-    contr = {v: ct for v, _, ct in c["cats"]}
+    contr = {x[0]: x[2] for x in c["cats"]}
     parts = []
     for t in c["terms"]:
         parts.append("1" if not t else ":".join(atom(v, contr[v]) if v in contr else v for v in t))
@@ -154,7 +183,8 @@ def formula_of(c):
 
 
 def describe(c):
-    return f"cats={len(c['cats'])},nums={len(c['nums'])},terms={len(c['terms'])},deg={max([len(t) for t in c['terms']] + [0])}"
+    pools = "+".join(sorted({x[3] if len(x) > 3 else "str" for x in c["cats"]}))
+    return f"cats={len(c['cats'])},nums={len(c['nums'])},terms={len(c['terms'])},labels={pools}"
 
 
 def nontrivial(c):
@@ -182,7 +212,7 @@ KEEP = 2  # rows forwarded to the model (the structure does not depend on the ro
 
 
 def impl(c):
-    df, nrows = crossed_frame([tuple(x) for x in c["cats"]], c["nums"])
+    df, nrows = crossed_frame(c["cats"], c["nums"])
     try:
         m, mm = _mat(c, df, True)
         m2, mm2 = _mat(c, df, False)
